@@ -79,6 +79,8 @@ def rule_funnel(ctx, rep):
 
                 # an increment by compare-and-swap between constants is an increment (a failed swap changes nothing);
                 # anything else the algebra cannot account for
+                if _at.cas_test(t) is not None:
+                    continue  # a test of the word that changes nothing
                 cls = "atomic_add" if _at.cas_increment(t) is not None else "atomic_other"
             allowed = ("Arc", "UniqueArc") if cls == "atomic_new" else ("Arc",)
             if cls == "atomic_other":
